@@ -2,9 +2,15 @@ module verif/engine
 
 go 1.23
 
-require golang.org/x/tools v0.29.0
+require (
+	github.com/zeebo/blake3 v0.2.4
+	golang.org/x/crypto v0.28.0
+	golang.org/x/tools v0.29.0
+)
 
 require (
+	github.com/klauspost/cpuid/v2 v2.2.8 // indirect
 	golang.org/x/mod v0.22.0 // indirect
 	golang.org/x/sync v0.10.0 // indirect
+	golang.org/x/sys v0.29.0 // indirect
 )
